@@ -5,10 +5,10 @@ Collect / ReturnList / ReturnDict / Yield*), spec/MC_ParallelRunner.tla (generat
 spec/Trace_ParallelRunner.tla (trace acceptance).
 
 Role A: TLC checks Correct / ExactlyOnce / StoreInv over every dispatch/complete/collect
-interleaving for n <= 5 jobs (quick tier: 4), <= 3 workers, all four call variants, and
-(thorough tier) refutes Correct for the "place by arrival position" collector.
+interleaving for n <= 5 jobs, <= 3 workers, all four call variants, and refutes Correct
+for the "place by arrival position" collector (negative control).
 
-Binding B: TLC enumerates (model checking, n <= 5, w <= 5; quick tier 4, 4) or draws (-simulate, n <= 64,
+Binding B: TLC enumerates (model checking, n <= 5, w <= 5) or draws (-simulate, n <= 64,
 w <= 16) behaviours of the spec and prints job count, worker count, call variant, the
 completion order it chose, the inputs and the value the SPEC returns; a second generator
 draws random sleep ranks.  Every record is run through the REAL accelforge.util.parallel.
@@ -403,7 +403,7 @@ def run(ck: Check):
                "generator_unordered call; returned value compared "
                "with TLC's and the recorded execution validated by Trace_ParallelRunner. Non-trivial = at least "
                "two jobs and the jobs actually completed out of job order; distinct by (variant, backend, n, "
-               "observed completion order)." % ((5, "1..5") if thorough else (4, "{1,2,4}")))
+               "observed completion order)." % (5, "1..5"))
     ck.trusted += ["checks/c32.py: job() (barrier/sleep + flock'ed sequence log), project() (return value -> ret)",
                    "accelforge/util/_verif.py schedule hook (guarded by ACCELFORGE_VERIF=1) for the hook runs",
                    "joblib backends (loky, threading) selected with joblib.parallel_config"]
@@ -412,23 +412,21 @@ def run(ck: Check):
                        "dict results are compared including key order (the title's 'job order' = input key order)"]
 
     # ---- role A
-    ck.tlc_expect_ok("ParallelRunner", "ParallelRunner_design.cfg" if thorough else "ParallelRunner_design_q.cfg",
-                     timeout=1800,
+    ck.tlc_expect_ok("ParallelRunner", "ParallelRunner_design.cfg", timeout=1800,
                      required_actions=("DispatchAny", "CompleteAny", "Collect", "ReturnList", "ReturnDict",
                                        "YieldOrdered", "YieldUnordered", "Exhausted"))
-    ck.extra["role_A"] = ("ParallelRunner: Correct, AtMostOnce, ExactlyOnce, StoreInv hold for n<=%d jobs, <=3 "
-                          "workers, any dispatch order, all interleavings, 4 call variants" % (5 if thorough else 4))
-    if thorough:
-        neg = ck.tlc("ParallelRunner", "ParallelRunner_byarrival.cfg", timeout=600)
-        if neg.ok or "Correct" not in (neg.violated or ""):
-            raise Machinery("role-A negative control: a collector that places results by arrival position must "
-                            "violate Correct, TLC says: %s" % neg.violated)
-        ck.extra["role_A"] += "; placing by arrival position instead of by tag violates Correct (%s)" % neg.violated
+    neg = ck.tlc("ParallelRunner", "ParallelRunner_byarrival.cfg", timeout=600)
+    if neg.ok or "Correct" not in (neg.violated or ""):
+        raise Machinery("role-A negative control: a collector that places results by arrival position must "
+                        "violate Correct, TLC says: %s" % neg.violated)
+    ck.extra["role_A"] = ("ParallelRunner: Correct, AtMostOnce, ExactlyOnce, StoreInv hold for n<=5 jobs, <=3 "
+                          "workers, any dispatch order, all interleavings, 4 call variants; placing by arrival "
+                          "position instead of by tag violates Correct (%s)" % neg.violated)
     _t(ck, "role A done")
 
     # ---- binding B: generators
-    exh = _gen(ck, "MC_ParallelRunner_exh.cfg" if thorough else "MC_ParallelRunner_exh4.cfg", workers=8)
-    nsim = 1000 if thorough else 90
+    exh = _gen(ck, "MC_ParallelRunner_exh.cfg", workers=8)
+    nsim = 1000 if thorough else 150
     # one long random behaviour = many runs back to back (about 100 steps per run)
     sim = _gen(ck, "MC_ParallelRunner_sim.cfg", simulate="num=1", depth=100 * nsim, seed=ck.seed, workers=1)
     _t(ck, "generators done: %d exhaustive, %d simulated schedules with sleep ranks" % (len(exh), len(sim)))
@@ -445,7 +443,8 @@ def run(ck: Check):
     _t(ck, "schedule hook done: %d calls" % len(book.items))
     t0 = time.time()
     # threading backend: no batching, in-order dispatch -> TLC's schedules are imposed exactly
-    _drive(ck, book, exh + sim, "threading", "barrier", procs=8)
+    exh_t = exh if thorough else [c for c in exh if c["n"] <= 4]      # quick: n = 5 only through the hook
+    _drive(ck, book, exh_t + sim, "threading", "barrier", procs=8)
     _t(ck, "threading/barrier done: %d calls" % len(book.items))
     # arbitrary permutations (TLC's rank vectors): exact where every job has its own worker,
     # as sleep times otherwise
@@ -459,14 +458,14 @@ def run(ck: Check):
 
     # loky (the default backend of parallel()): worker processes.  A new worker count means a new
     # pool of fresh interpreters (and the dict variant makes every worker import accelforge), so
-    # the quick tier uses few worker counts and the dict variant only with <= 4 workers.
+    # the quick tier uses few worker counts and the dict variant only with 2 workers.
     t0 = time.time()
     if thorough:
         loky_ws = list(range(1, 17))
     else:
-        loky_ws = sorted({2, 16} | set(rng.sample(range(3, 16), 1)))
-    dict_ws = {1, 2, 3, 4, 8, 16} if thorough else {w for w in loky_ws if w <= 4}
-    per_w = 20 if thorough else 5
+        loky_ws = sorted({2, 16} | set(rng.sample(range(3, 16), 3)))
+    dict_ws = {1, 2, 3, 4, 8, 16} if thorough else {2}
+    per_w = 20 if thorough else 8
     for w in loky_ws:
         try:
             _warm("loky", w, w in dict_ws)
@@ -534,9 +533,9 @@ def run(ck: Check):
     ck.extra["traces_accepted_by_TLC"] = len(accepted)
     ck.extra["exhaustive_parts"] = ["all completion orders feasible with in-order dispatch for n<=%d, w in %s, "
                                     "4 variants (schedule hook; threading backend with barriers)"
-                                    % ((5, "1..5") if thorough else (4, "{1,2,4}"))]
+                                    % (5, "1..5")]
     ck.extra["not_covered"] = ("Apalache inductive run; on loky "
-                               "the dict variant runs with <= 4 workers in the quick tier and with 1,2,3,4,8,16 "
+                               "the dict variant runs with 2 workers in the quick tier and with 1,2,3,4,8,16 "
                                "workers in the thorough tier (all 1..16 on the threading backend); pools larger "
                                "than the job count cannot impose an order with sleeps when joblib batches jobs")
     ck.exhaustive = False
